@@ -18,7 +18,8 @@ DYNAMIC = ("echo.bytes", "echo.string", "echo.dynarray", "dynarray.index", "dyna
 
 def pairs(tid, quick):
     if quick and tid.startswith(DYNAMIC):
-        return [("L-gas", "L-none", "cancun"), ("V-O2", "V-none", "cancun")]
+        cross = [("L-gas", "V-O2", "cancun")] if tid in ("echo.bytes", "event.bytes", "extcall.bytes", "echo.dynarray", "storage.bytes", "echo.string") else []
+        return cross + [("L-gas", "L-none", "cancun"), ("V-O2", "V-none", "cancun")]
     base = [("L-gas", "V-O2", "cancun")]
     if not quick or tid.startswith(QUICK_ALL_CFG):
         base += [("L-gas", "L-none", "cancun"), ("L-gas", "L-codesize", "cancun"), ("V-O2", "V-none", "cancun"), ("V-O2", "V-O3", "cancun"), ("V-O2", "V-Os", "cancun")]
@@ -30,8 +31,8 @@ def jobs(tier, seed):
     J = []
     T = build(quick)
     for tid, src in T.items():
-        if any(h in tid for h in HEAVY) and quick:
-            continue
+        if any(h in tid for h in HEAVY) and (quick or not tid.startswith(("arith.uint256.fdiv", "arith.uint256.mod", "arith.int256.fdiv", "aug.uint256", "sarray2"))):
+            continue  # non-linear arithmetic across two differently shaped terms does not decide within the budget (C03 decides those kernels)
         if tid.startswith("lock."):
             continue  # C09
         for a, b, evm in pairs(tid, quick):
@@ -50,7 +51,7 @@ def jobs(tier, seed):
     #  behaviour to compare; recorded in DESIGN.md section 4 as an observation)
     FLAGS = ["inlining", "cse", "sccp", "load_elimination", "dead_store_elimination", "algebraic_optimization", "branch_optimization", "assert_elimination", "mem2var", "remove_unused_variables"]
     FLAG_T = ("arith.int128.add", "cmp.int256.lt", "if.else", "for.range", "for.break", "storage.rw", "storage.struct", "internal.tuple", "internal.memarg", "event.static", "dispatch.six", "extcall.view",
-              "sarray.index", "convert.uint256.int128", "assert.reason") if quick else tuple(k for k in T if not any(h in k for h in HEAVY) and not k.startswith(DYNAMIC + ("lock.",)))
+              "sarray.index", "convert.uint256.int128", "assert.reason") if quick else tuple(k for k in T if not any(h in k for h in HEAVY) and not k.startswith(DYNAMIC + ("lock.",)))[:60]
     for tid in FLAG_T:
         if tid not in T:
             continue
